@@ -3,6 +3,7 @@ package props
 import (
 	"fmt"
 	"go/token"
+	"go/types"
 	"strings"
 
 	"golang.org/x/tools/go/ssa"
@@ -30,16 +31,45 @@ func c19(r *core.Run) {
 		return
 	}
 	fname := core.FuncName(fn)
-	var subCall, pubCall, marshal ssa.CallInstruction
+	// anchors: the steps may sit in private helpers of SendRequest (subscribeInbox, publishRequest,
+	// awaitResponse ...). subInv / pubInv are the invokes themselves, subCall / pubCall the
+	// instructions of SendRequest that stand for them (the invoke, or the call of the helper), wf the
+	// function that holds the wait loop.
+	var subInv, pubInv, subCall, pubCall, marshal ssa.CallInstruction
 	var sel *ssa.Select
+	wf := fn
+	liftOne := func(c ssa.CallInstruction) ssa.CallInstruction {
+		if c == nil {
+			return nil
+		}
+		ls := p.Lift(c, fn)
+		if len(ls) != 1 {
+			return nil
+		}
+		lc, _ := ls[0].(ssa.CallInstruction)
+		return lc
+	}
+	for _, h := range p.Helpers(fn) {
+		for _, c := range core.Calls(h) {
+			cc := c.Common()
+			if cc.IsInvoke() && cc.Method.Name() == "ChanSubscribe" {
+				subInv = c
+			}
+			if cc.IsInvoke() && cc.Method.Name() == "PublishRequest" {
+				pubInv = c
+			}
+		}
+		for _, b := range h.Blocks {
+			for _, in := range b.Instrs {
+				if s, ok := in.(*ssa.Select); ok {
+					sel, wf = s, h
+				}
+			}
+		}
+	}
+	subCall, pubCall = liftOne(subInv), liftOne(pubInv)
 	for _, c := range core.Calls(fn) {
 		cc := c.Common()
-		if cc.IsInvoke() && cc.Method.Name() == "ChanSubscribe" {
-			subCall = c
-		}
-		if cc.IsInvoke() && cc.Method.Name() == "PublishRequest" {
-			pubCall = c
-		}
 		if cal := cc.StaticCallee(); cal != nil && cal.String() == "encoding/json.Marshal" {
 			marshal = c
 		} else if cal != nil && len(cal.Blocks) > 0 && cal.Pkg == fn.Pkg && cal.Signature.Results().Len() == 2 {
@@ -50,16 +80,70 @@ func c19(r *core.Run) {
 			}
 		}
 	}
-	for _, b := range fn.Blocks {
-		for _, in := range b.Instrs {
-			if s, ok := in.(*ssa.Select); ok {
-				sel = s
-			}
-		}
-	}
 	if subCall == nil || pubCall == nil || marshal == nil || sel == nil {
 		r.Unres("U1", "SendRequest-anchors", fmt.Sprintf("subscribe=%v publish=%v marshal=%v select=%v", subCall != nil, pubCall != nil, marshal != nil, sel != nil))
 		return
+	}
+	// the results of a step as SendRequest sees them, by type (a helper may return more values
+	// than the invoke it wraps)
+	resultOfType := func(site ssa.CallInstruction, want func(string) bool) ssa.Value {
+		v := site.Value()
+		if v == nil {
+			return nil
+		}
+		if _, isTuple := v.Type().(*types.Tuple); !isTuple {
+			if want(types.TypeString(v.Type(), nil)) {
+				return v
+			}
+			return nil
+		}
+		if v.Referrers() == nil {
+			return nil
+		}
+		for _, rf := range *v.Referrers() {
+			if ex, ok := rf.(*ssa.Extract); ok && want(types.TypeString(ex.Type(), nil)) {
+				return ex
+			}
+		}
+		return nil
+	}
+	isErrT := func(t string) bool { return t == "error" }
+	isSubT := func(t string) bool { return strings.HasSuffix(t, "nats.go.Subscription") }
+	subErr, subVal := resultOfType(subCall, isErrT), resultOfType(subCall, isSubT)
+	// a subscribing helper hands on the invoke's own subscription and error
+	if subCall != subInv {
+		h := subInv.Parent()
+		okH := true
+		for _, ret := range core.Returns(h) {
+			for _, rv := range ret.Results {
+				ts := types.TypeString(rv.Type(), nil)
+				if !isErrT(ts) && !isSubT(ts) {
+					continue
+				}
+				if c, isC := rv.(*ssa.Const); isC && c.IsNil() {
+					continue
+				}
+				if ex, ok := rv.(*ssa.Extract); !ok || ex.Tuple != subInv.Value() {
+					okH = false
+				}
+			}
+		}
+		r.Check(okH, "U1", core.FuncName(h), "subscribe-helper-returns-the-invoke's-subscription-and-error", p.InstrPos(subInv), "the helper hands on what ChanSubscribe returned", "the subscribing helper returns something else than the subscription / error of its ChanSubscribe call")
+	}
+	// the wait loop in a helper: SendRequest returns its result, after the release was deferred
+	if wf != fn {
+		tail := false
+		for _, c := range core.Calls(fn) {
+			if c.Common().StaticCallee() != wf || c.Value() == nil {
+				continue
+			}
+			for _, ret := range core.Returns(fn) {
+				if len(ret.Results) == 1 && unspill(ret.Results[0]) == c.Value() || (len(ret.Results) == 1 && ret.Results[0] == c.Value()) {
+					tail = true
+				}
+			}
+		}
+		r.Check(tail, "T1", fname, "wait-loop-result-is-returned", p.Pos(wf.Pos()), "the response of the wait loop ("+core.FuncName(wf)+") is what SendRequest returns", "the wait loop lives in "+core.FuncName(wf)+" but its result is not what SendRequest returns")
 	}
 
 	// ---- U1 --------------------------------------------------------------
@@ -73,19 +157,16 @@ func c19(r *core.Run) {
 			}
 		}
 	}
-	c19InboxOpen(r, "U1", fn, subCall)
+	c19InboxOpen(r, "U1", fn, subInv, subVal)
 	if def == nil {
 		r.Bad("U1", fname, "defer-Unsubscribe", p.Pos(fn.Pos()), "the inbox subscription is never released by a deferred Unsubscribe")
 	} else {
-		recvOK := false
-		if ex, ok := def.Common().Args[0].(*ssa.Extract); ok && ex.Index == 0 && ex.Tuple == subCall.Value() {
-			recvOK = true
-		}
+		recvOK := subVal != nil && def.Common().Args[0] == subVal
 		onOK := false
 		for _, ed := range dominatingEdges(def) {
 			ci := core.Cond(ed.If.Cond)
 			if ci.Kind == "nilcmp" {
-				if ex, ok := ci.X.(*ssa.Extract); ok && ex.Tuple == subCall.Value() && ex.Index == 1 {
+				if subErr != nil && ci.X == subErr {
 					truth := ed.Succ == 0
 					if ci.Negate {
 						truth = !truth
@@ -125,7 +206,7 @@ func c19(r *core.Run) {
 			for _, ed := range dominatingEdges(ret) {
 				ci := core.Cond(ed.If.Cond)
 				if ci.Kind == "nilcmp" {
-					if ex, ok := ci.X.(*ssa.Extract); ok && ex.Tuple == subCall.Value() && ex.Index == 1 {
+					if subErr != nil && ci.X == subErr {
 						truth := ed.Succ == 0
 						if ci.Negate {
 							truth = !truth
@@ -145,16 +226,8 @@ func c19(r *core.Run) {
 
 	// ---- E1 --------------------------------------------------------------
 	errEdge := func(call ssa.CallInstruction, idx int, what string) {
-		var ev ssa.Value
-		if idx < 0 {
-			ev = call.Value()
-		} else if call.Value().Referrers() != nil {
-			for _, rf := range *call.Value().Referrers() {
-				if ex, ok := rf.(*ssa.Extract); ok && ex.Index == idx {
-					ev = ex
-				}
-			}
-		}
+		_ = idx
+		ev := resultOfType(call, isErrT)
 		if ev == nil || ev.Referrers() == nil {
 			r.Bad("E1", fname, what+"-error-handled", p.InstrPos(call), "the "+what+" error is discarded")
 			return
@@ -196,7 +269,11 @@ func c19(r *core.Run) {
 							returned = true
 							if len(y.Results) > 0 && responseErrorIs(y.Results[0], func(v ssa.Value, rs *core.Resolver) bool {
 								c, ok := v.(*ssa.Call)
-								return ok && c.Common().StaticCallee() != nil && c.Common().StaticCallee().Name() == "InternalError" && rs.R(c.Common().Args[0]) == ev
+								if !ok || c.Common().StaticCallee() == nil || c.Common().StaticCallee().Name() != "InternalError" {
+									return false
+								}
+								a := rs.R(c.Common().Args[0])
+								return a == ev || a == core.NewResolver().R(ev) // the resolver looks through a one-result helper (publishRequest)
 							}) {
 								stored = true
 							}
@@ -217,7 +294,10 @@ func c19(r *core.Run) {
 	// the request payload is the encoder's output (or the empty-object literal for a nil request):
 	// the encoder is the only validation of the request value, so nothing else may be published
 	{
-		pay := pubCall.Common().Args[len(pubCall.Common().Args)-1]
+		pay := pubInv.Common().Args[len(pubInv.Common().Args)-1]
+		if vs := paramArgs(p, pay, 0); len(vs) == 1 {
+			pay = vs[0] // the publishing helper's parameter: what SendRequest hands it
+		}
 		for k, src := range phiSources(pay) {
 			good := false
 			for _, lf := range valueLeaves(src.V, nil, 0) {
@@ -241,6 +321,7 @@ func c19(r *core.Run) {
 			r.Check(good, "E1", fname, fmt.Sprintf("request-payload#%d<-json.Marshal-or-literal", k), p.InstrPos(pubCall), "the published request is the encoder's output or the package-level empty request", "the published request payload is "+valDesc(src.V)+", which did not pass through json.Marshal: an unencodable / invalid request is sent and waited on instead of being reported as an internal error at once")
 		}
 	}
+	c19InternalErrorFresh(r, "E1")
 	errEdge(marshal, 1, "marshal")
 	errEdge(subCall, 1, "subscribe")
 	errEdge(pubCall, -1, "publish")
@@ -248,7 +329,7 @@ func c19(r *core.Run) {
 	// ---- T1 --------------------------------------------------------------
 	// timer arm
 	timeoutOK := false
-	for _, ret := range core.Returns(fn) {
+	for _, ret := range core.Returns(wf) {
 		if len(ret.Results) == 0 {
 			continue
 		}
@@ -268,7 +349,7 @@ func c19(r *core.Run) {
 	// result-variable style: on the timer arm ErrTimeout is stored into the Error field of the
 	// response variable, the loop is left (no way back to the select) and that variable is returned
 	returnedCell := func(al ssa.Value) bool {
-		for _, ret := range core.Returns(fn) {
+		for _, ret := range core.Returns(wf) {
 			for _, rv := range ret.Results {
 				u, ok := rv.(*ssa.UnOp)
 				if !ok || u.Op != token.MUL {
@@ -292,7 +373,7 @@ func c19(r *core.Run) {
 		return false
 	}
 	if !timeoutOK {
-		for _, b := range fn.Blocks {
+		for _, b := range wf.Blocks {
 			for _, in := range b.Instrs {
 				st, ok := in.(*ssa.Store)
 				if !ok {
@@ -318,7 +399,7 @@ func c19(r *core.Run) {
 	r.Check(timeoutOK, "T1", fname, "timer-arm-returns-ErrTimeout", p.InstrPos(sel), "the deadline arm returns the timeout error", "the timer arm does not return res.ErrTimeout")
 	// response arm
 	parseOK := false
-	for _, c := range core.Calls(fn) {
+	for _, c := range core.Calls(wf) {
 		if cal := c.Common().StaticCallee(); cal != nil && cal.Name() == "ParseResponse" {
 			if f, ok := core.LoadedField(c.Common().Args[0]); ok && f.Name == "Data" {
 				// its block returns, and it is reached from the select's message arm
@@ -340,14 +421,14 @@ func c19(r *core.Run) {
 	// pre-response arm (its statements may live in private helpers of SendRequest)
 	var atoi, lookup, stop, newTimer ssa.CallInstruction
 	reachedFromSelect := func(c ssa.Instruction) bool {
-		for _, l := range p.Lift(c, fn) {
+		for _, l := range p.Lift(c, wf) {
 			if core.Reaches(sel, l) {
 				return true
 			}
 		}
 		return false
 	}
-	for _, c := range helperCalls(p, fn) {
+	for _, c := range helperCalls(p, wf) {
 		cal := c.Common().StaticCallee()
 		if cal == nil {
 			continue
@@ -370,10 +451,10 @@ func c19(r *core.Run) {
 	} else {
 		// a helper that parses the pre-response: it performs the lookup or the conversion
 		parses := func(cal *ssa.Function) bool {
-			return cal != nil && (cal == lookup.Parent() || cal == atoi.Parent()) && cal != fn
+			return cal != nil && (cal == lookup.Parent() || cal == atoi.Parent()) && cal != wf
 		}
 		allowed := func(e edgeCond) bool {
-			if e.If.Parent() == fn && !core.Reaches(sel, e.If) {
+			if e.If.Parent() == wf && !core.Reaches(sel, e.If) {
 				return true // decided before the wait loop (failure edges are judged by E1)
 			}
 			c := e.If.Cond
@@ -414,7 +495,7 @@ func c19(r *core.Run) {
 			return false
 		}
 		var extra []string
-		for _, ed := range ctxEdges(p, newTimer, fn, 0) {
+		for _, ed := range ctxEdges(p, newTimer, wf, 0) {
 			if !allowed(ed) {
 				extra = append(extra, describeCond(ed))
 			}
@@ -438,7 +519,7 @@ func c19(r *core.Run) {
 		// the duration as seen in SendRequest: when the timer is (re)armed by a helper that also arms
 		// the initial timer, only the call sites inside the wait loop count
 		durVals := []ssa.Value{d}
-		if prm, ok := d.(*ssa.Parameter); ok && newTimer.Parent() != fn {
+		if prm, ok := d.(*ssa.Parameter); ok && newTimer.Parent() != wf {
 			durVals = nil
 			idx := -1
 			for i, q := range prm.Parent().Params {
@@ -447,7 +528,7 @@ func c19(r *core.Run) {
 				}
 			}
 			for _, cs := range p.CallersOf(prm.Parent()) {
-				if cs.Parent() == fn && core.Reaches(sel, cs) && idx >= 0 && idx < len(cs.Common().Args) {
+				if cs.Parent() == wf && core.Reaches(sel, cs) && idx >= 0 && idx < len(cs.Common().Args) {
 					durVals = append(durVals, cs.Common().Args[idx])
 				}
 			}
@@ -470,15 +551,15 @@ func c19(r *core.Run) {
 		}
 		durOK = durOK && nAnn > 0
 		r.Check(len(extra) == 0 && durOK, "T1", fname, "pre-response-restarts-timer-unconditionally", p.InstrPos(newTimer), "on a parsed timeout pre-response a timer of exactly the announced milliseconds is installed, with no further condition", fmt.Sprintf("the deadline is not always restarted with the announced duration: extra conditions %v, duration-is-announced-ms=%v", extra, durOK))
-		stopped := stop != nil && p.DominatesIn(fn, stop, newTimer)
+		stopped := stop != nil && p.DominatesIn(wf, stop, newTimer)
 		if !stopped && stop != nil {
 			// typestate: 1 = the running timer was stopped (or there is none: the nil edge of a test of
 			// the timer value); every wait on the select starts a new round
 			inl := map[*ssa.Function]bool{}
-			for _, h := range p.Helpers(fn) {
+			for _, h := range p.Helpers(wf) {
 				inl[h] = true
 			}
-			fl := &core.Flow{Fn: fn, Entry: core.StateSet(0).Add(0), Inline: func(cal *ssa.Function) bool { return inl[cal] && cal != fn }}
+			fl := &core.Flow{Fn: wf, Entry: core.StateSet(0).Add(0), Inline: func(cal *ssa.Function) bool { return inl[cal] && cal != wf }}
 			fl.Transfer = func(in ssa.Instruction, st int) core.StateSet {
 				if in == ssa.Instruction(sel) {
 					return core.StateSet(0).Add(0)
@@ -521,7 +602,7 @@ func c19(r *core.Run) {
 		r.Check(usesNew, "T1", fname, "select-waits-on-the-new-timer", p.InstrPos(sel), "the loop waits on the replaced timer", "the new timer is created but the loop keeps waiting on the old one")
 		// callbacks
 		cbOK := false
-		for _, c := range helperCalls(p, fn) {
+		for _, c := range helperCalls(p, wf) {
 			if !core.IsDynamic(c) || len(c.Common().Args) != 1 {
 				continue
 			}
@@ -544,15 +625,15 @@ func c19(r *core.Run) {
 			}
 			fromParam := false
 			for _, src := range paramArgs(p, ia.X, 0) {
-				if prm, ok := src.(*ssa.Parameter); ok && prm.Parent() == fn {
+				if prm, ok := src.(*ssa.Parameter); ok && (prm.Parent() == fn || prm.Parent() == wf) {
 					fromParam = true
 				}
 			}
-			if !fromParam || !p.ReachesIn(fn, newTimer, c) {
+			if !fromParam || !p.ReachesIn(wf, newTimer, c) {
 				continue
 			}
 			var ex2 []string
-			for _, ed := range ctxEdges(p, c, fn, 0) {
+			for _, ed := range ctxEdges(p, c, wf, 0) {
 				if !allowed(ed) && !isRangeCond(ed) {
 					ex2 = append(ex2, describeCond(ed))
 				}
@@ -598,6 +679,55 @@ func c19(r *core.Run) {
 		}
 	}
 	r.Check(good, "V1", fname, "pre-response-key-agrees-with-service", posOf(p, lookup), "client looks up "+key+", the service emits "+strings.Join(lits, ","), fmt.Sprintf("client looks up %q but the service Timeout methods emit %v", key, lits))
+}
+
+// c19InternalErrorFresh: "reported as an internal error" rests on the
+// converter: every value res.InternalError returns is an Error it allocated
+// itself, with the internal-error code stored into it - never an error found
+// in (or unwrapped from) its argument, whose code is the argument's business.
+func c19InternalErrorFresh(r *core.Run, rule string) {
+	p := r.P
+	fn := p.Func("InternalError")
+	if fn == nil {
+		r.Unres(rule, "res.InternalError", "missing")
+		return
+	}
+	good, why := true, ""
+	n := 0
+	for _, ret := range core.Returns(fn) {
+		if fn.Recover != nil && ret.Block() == fn.Recover {
+			continue
+		}
+		for _, lf := range valueLeaves(ret.Results[0], nil, 0) {
+			n++
+			al, ok := core.Strip(lf.V).(*ssa.Alloc)
+			if !ok || al.Referrers() == nil {
+				good, why = false, "the value returned at "+p.InstrPos(ret)+" ("+valDesc(lf.V)+") is not an Error allocated by the converter"
+				continue
+			}
+			code := false
+			for _, rf := range *al.Referrers() {
+				fa, ok := rf.(*ssa.FieldAddr)
+				if !ok || fa.Referrers() == nil {
+					continue
+				}
+				if f, ok := core.FieldOf(fa); !ok || f.Name != "Code" {
+					continue
+				}
+				for _, r2 := range *fa.Referrers() {
+					if st, ok := r2.(*ssa.Store); ok && st.Addr == ssa.Value(fa) {
+						if s, ok := core.ConstString(st.Val); ok && s == "system.internalError" {
+							code = true
+						}
+					}
+				}
+			}
+			if !code {
+				good, why = false, "the Error returned at "+p.InstrPos(ret)+" does not get the code system.internalError"
+			}
+		}
+	}
+	r.Check(good && n > 0, rule, core.FuncName(fn), "converter-returns-a-fresh-internal-error", p.Pos(fn.Pos()), "every value InternalError returns is its own Error with code system.internalError", "a marshal / subscribe / publish failure is not always reported as an internal error: "+why)
 }
 
 func condOnSelect(c ssa.Value, sel *ssa.Select) bool {
@@ -762,7 +892,7 @@ func structErrorIs(v ssa.Value, rs *core.Resolver, pred func(ssa.Value, *core.Re
 // c19InboxOpen: the inbox can hold a message while SendRequest is busy and the
 // interest lasts until SendRequest returns (C19.U1; shared with C18.V5: a
 // response the service published must reach the client's parser).
-func c19InboxOpen(r *core.Run, rule string, fn *ssa.Function, subCall ssa.CallInstruction) {
+func c19InboxOpen(r *core.Run, rule string, fn *ssa.Function, subCall ssa.CallInstruction, subInCaller ssa.Value) {
 	p := r.P
 	fname := core.FuncName(fn)
 	// the inbox channel can hold a message while SendRequest is not parked in the select: the NATS
@@ -770,7 +900,7 @@ func c19InboxOpen(r *core.Run, rule string, fn *ssa.Function, subCall ssa.CallIn
 	{
 		chArg := subCall.Common().Args[len(subCall.Common().Args)-1]
 		buffered := false
-		desc := valDesc(chArg)
+		desc := "not a channel made for this request (" + valDesc(chArg) + " - a channel that outlives the request can still hold a message of an earlier one)"
 		for _, lf := range valueLeaves(chArg, nil, 0) {
 			if mk, ok := lf.V.(*ssa.MakeChan); ok {
 				if n, ok := core.ConstInt(mk.Size); ok {
@@ -830,12 +960,20 @@ func c19InboxOpen(r *core.Run, rule string, fn *ssa.Function, subCall ssa.CallIn
 						continue
 					}
 					other = append(other, core.CalleeName(x)+" at "+p.InstrPos(x))
+				case *ssa.Return:
+					if x.Parent() == fn {
+						other = append(other, "returned at "+p.InstrPos(x))
+					}
+					// a subscribing helper hands the subscription to SendRequest: its uses there are walked below
 				default:
 					other = append(other, fmt.Sprintf("%T at %s", rf, p.InstrPos(rf)))
 				}
 			}
 		}
 		walk(subV, 0)
+		if subInCaller != nil && subInCaller != subV {
+			walk(subInCaller, 0)
+		}
 		r.Check(subV != nil && len(other) == 0, rule, fname, "subscription-used-only-by-the-release", p.InstrPos(subCall), "nothing but the (deferred) Unsubscribe touches the inbox subscription: it stays active across pre-responses until SendRequest returns", "the inbox subscription is also used by "+strings.Join(other, ", ")+": ending or limiting the interest early (AutoUnsubscribe, Drain, an early Unsubscribe) drops the real response that follows a pre-response")
 	}
 }
